@@ -132,6 +132,11 @@ func (c *ctx) generic() {
 			c.v("C15/published-config-written", "configurations published to the server (indices %s) were written afterwards: serving requests or later loads modified a published value", e.S)
 			c.v("C16/published-config-modified", "configurations published to the server (indices %s) no longer equal their snapshot", e.S)
 		}
+		if e.Kind == "secret-mutated" {
+			c.v("C03/secret-written-by-server", "the key material the secret provider handed to the server was modified (the provider's key ring no longer holds the configured keys)")
+			c.v("C06/secret-written-by-server", "the key material the secret provider handed to the server was modified: later replies are not obfuscated with the connection's configured secret")
+			c.v("C15/secret-written-by-server", "shared key material handed out by the secret provider was written by a connection goroutine")
+		}
 		if e.Kind == "body-mutated" {
 			c.v("C05/body-changed-while-handled", "conn %d invocation %d: the request body the handler was given changed while the handler was running (another connection's traffic overwrote it)", e.Conn, e.A)
 			c.v("C09/body-changed-while-handled", "conn %d invocation %d: the request body the handler was given changed while the handler was running", e.Conn, e.A)
